@@ -74,7 +74,7 @@ def bounds(tier):
         "generic_sizes": "1..5 over 4 palettes (+ 256/257-symbol alphabets)", "generic_seq_len": 3,
         "mapper_alphabets": 8,
         "kmer_base": "2..4", "kmer_k": "2..4" if q else "2..5", "kmer_span": "<= k+2",
-        "kmer_seq_len": "<= span+2 (n^len <= 4096)" if q else "<= span+3 (n^len <= 20000)",
+        "kmer_seq_len": "<= span+2 (n^len <= 2048)" if q else "<= span+3 (n^len <= 16384)",
         "seqapi_len": {"nuc": 4, "iupac": 3 if not q else "3 (2 + seed-chosen third letter block at quick)", "protein": 3 if not q else "2 + seed block", "general": 3},
         "translate_len": "<=8 (default,1,synthetic,4 seed-chosen NCBI), <=6 all 25 NCBI, 9 over {A,T,G}" if q else
                          "<=9 all tables, 10-11 over {A,T,G} for 6 tables",
@@ -940,8 +940,8 @@ def check_k_kmers(ctx, K, M, case, seq_, dt):
     if r[0] == "ok":
         v = r[1]
         r = ("ok", pl(v) if isinstance(v, np.ndarray) and v.ndim == 1 else ["not a 1-d ndarray", repr(v)[:60]])
-    r2 = call(lambda: K.kmer_array_length(len(seq_)))
-    if cnt >= 0:
+    if cnt >= 0 and dt == "uint8" and not bad:
+        r2 = call(lambda: K.kmer_array_length(len(seq_)))
         judge(ctx, "KmerAlphabet.kmer_array_length", "len", mk, r2, ("accept", cnt))
     if cnt <= 0:
         judge(ctx, "KmerAlphabet.create_kmers", "shorter_than_span", mk, r, ("either", []), 1)
@@ -957,7 +957,7 @@ def check_k_kmers(ctx, K, M, case, seq_, dt):
 
 
 def kmer_maxlen(n, span, tier):
-    cap = 4096 if tier == "quick" else 20000
+    cap = 2048 if tier == "quick" else 16384
     L = span + (2 if tier == "quick" else 3)
     while n**L > cap and L > span:
         L -= 1
@@ -1024,12 +1024,12 @@ def kmer_battery(ctx, case, part, tier, seed):
             for dt in UDTYPES:
                 check_k_kmers(ctx, K, M, case, s, dt)
             for pos in range(L):
-                for dt in ("uint8", other):
-                    hi = int(np.iinfo(dt).max)
-                    for v in (n, hi):
-                        t = list(s)
-                        t[pos] = v
-                        check_k_kmers(ctx, K, M, case, t, dt)
+                for dt, v in (("uint8", n), (other, int(np.iinfo(other).max)), ("uint8", 255)):
+                    if dt == "uint8" and v == 255 and (pos + sum(s)) % 3:
+                        continue
+                    t = list(s)
+                    t[pos] = v
+                    check_k_kmers(ctx, K, M, case, t, dt)
     ctx.sample({**case, "unit": "kmers", "seq": [0] * (span - 1) + [n - 1, 1 % n], "dt": "uint8"})
 
 
@@ -1780,7 +1780,7 @@ def shards(tier, seed):
     for base in ("l", "g"):
         for n in (2, 3, 4):
             for k in (2, 3, 4) if quick else (2, 3, 4, 5):
-                if k == 5 and (base == "g" or n == 3):
+                if (k == 5 and (base == "g" or n == 3)) or (quick and base == "g" and n != 3):
                     continue
                 out.append({"kind": "kmer", "base": base, "n": n, "k": k, "sp": None, "part": "codes", "w": 2})
                 out.append({"kind": "kmer", "base": base, "n": n, "k": k, "sp": None, "part": "kmers", "w": 2})
